@@ -39,6 +39,9 @@ type Tape struct {
 	Tasks    []TaskT `json:"tasks"`
 }
 
+// uniqueSPN is the service only task i asks for.
+func uniqueSPN(i int) string { return fmt.Sprintf("HTTP/u%d.sim.test", i) }
+
 var spns = []string{"HTTP/host.sim.test", "HTTP/web.sim.test", "cifs/files.sim.test", "ldap/dir.sim.test", "HTTP/api.sim.test", "HTTP/far.other.test"}
 
 func Meta() core.Meta {
@@ -93,6 +96,9 @@ func Gen(caseID, tier string) (json.RawMessage, error) {
 	}
 	for i := 1; i <= nt; i++ {
 		t := TaskT{ID: i, Sched: simrt.Sched{Seed: r.U64(), Mode: modes[r.Intn(len(modes))]}}
+		if shape == 4 && r.Chance(1, 2) {
+			t.Sched.Mode = "stall"
+		}
 		nops := r.Range(1, 8)
 		if shape == 4 {
 			nops = r.Range(5, 8)
@@ -141,10 +147,12 @@ func Gen(caseID, tier string) (json.RawMessage, error) {
 			if shape == 4 {
 				o.ThinkNs = int64(r.Range(0, int(tp.LifeS)*250))*1_000_000 + int64(r.Range(0, 3000))
 				if k == 0 {
-					// start around the renewal point of the TGT obtained by the login at time 0
+					// start around the renewal point of the TGT obtained by the login at time 0, with a
+					// request that has to go to the KDC (nobody else asks for this service)
+					o.Op, o.SPN = "tgs", uniqueSPN(i)
 					o.ThinkNs = tp.LifeS*1_000_000_000*5/6 + int64(r.Range(-2000, 8000))*1000 + int64(r.Range(0, 999))
 				}
-				if r.Chance(1, 2) {
+				if k > 0 && r.Chance(1, 2) {
 					o.ThinkNs = int64(r.Range(0, 4000)) * 1000
 				}
 			}
